@@ -1,4 +1,4 @@
-\* E02 mc (thorough): report / comparison laws on every pair with |h1| <= 1, |h2| <= 1
+\* E02 mc (thorough): report / comparison laws on every pair with |h1| <= 1, |h2| <= 1 (chain)
 CONSTANTS
     Depth = 0
     Seeds = {"full", "lin1", "lin2"}
@@ -7,7 +7,7 @@ CONSTANTS
     Variant = "doc"
     L1 = 1
     L2 = 1
-    Modes = {"chain", "fork"}
+    Modes = {"chain"}
     Exact = FALSE
     Heavy = {"report", "compare"}
 INIT DInit
